@@ -107,6 +107,8 @@ fn check_bytes_input(sink: &Sink, input: &[u8]) {
         let (l, r) = input.split_at(input.len() / 2);
         s.write_all(l).unwrap();
         let _ = s.write(r).unwrap();
+        let _ = s.write_vectored(&[]).unwrap();
+        let _ = s.write_vectored(&[std::io::IoSlice::new(&[]), std::io::IoSlice::new(r)]).unwrap();
         s.flush().unwrap();
         let mut a = anstream::AutoStream::never(Vec::new());
         a.write_all(input).unwrap();
@@ -352,9 +354,14 @@ fn main() {
                     let mut inp2 = vec![b];
                     inp2.extend(m);
                     check_bytes_input(&sink, &inp2);
+                    // the byte right before the final byte of the sequence (the list is full at that point)
+                    let mut inp3 = m[..m.len() - 1].to_vec();
+                    inp3.push(b);
+                    inp3.push(m[m.len() - 1]);
+                    check_bytes_input(&sink, &inp3);
                 }
             }
-            sink.count("byte entry points: limit-reaching macro inputs x 256 bytes", macros.len() as u64 * 512);
+            sink.count("byte entry points: limit-reaching macro inputs x 256 bytes x 3 positions", macros.len() as u64 * 768);
             // text entry points
             let n = if thorough { 4 } else { 3 };
             let texts: Vec<Vec<usize>> = strings_upto(text_alpha.len(), n).collect();
